@@ -45,6 +45,9 @@ def emit_one(g, gi, runtime_ctor=False, limits=None, extra_decl=''):
             if plain and not t.typed: ref = cchar(t.text)
             else:
                 o.append('constexpr char_term t%d(%s, %d, %s);' % (j, cchar(t.text), t.prec, ASSOC[t.assoc])); ref = 't%d' % j
+        elif t.kind == 'k':
+            o.append('constexpr custom_term t%d(%s, vf::TT<%d, %s>{}, %d, %s);' % (j, cstr(t.display()), j, VT[getattr(g, 'tvtype', 'V')], t.prec, ASSOC[t.assoc])); ref = 't%d' % j
+            tref.append(ref); continue
         elif t.kind == 's':
             if plain and not t.typed: ref = cstr(t.text)
             else:
@@ -79,9 +82,13 @@ def emit_one(g, gi, runtime_ctor=False, limits=None, extra_decl=''):
         rules.append(txt)
     if extra_decl: o.append(extra_decl)
     tail = ''
+    ls = getattr(g, 'lexspec', None)
+    if ls is not None:
+        o.append('constexpr vf::lexspec spec = { { %s }, { %s } };' % (', '.join(str(x) for x in ls[0]), ', '.join(str(x) for x in ls[1])))
+        tail = ', use_lexer<vf::ScriptLexer>{}'
     if limits:
         o.append('struct lim { static const size_t state_count_cap = %d; static const size_t max_sit_count_per_state_cap = %d; };' % limits)
-        tail = ', use_generated_lexer{}, lim{}'
+        tail = (tail or ', use_generated_lexer{}') + ', lim{}'
     decl = 'parser p(n%d, terms(%s), nterms(%s), rules(\n  %s\n)%s);' % (
         g.root, ', '.join(tref), ', '.join('n%d' % i for i in range(len(g.nts))), ',\n  '.join(rules), tail)
     if runtime_ctor:
@@ -90,6 +97,7 @@ def emit_one(g, gi, runtime_ctor=False, limits=None, extra_decl=''):
         o.append('constexpr ' + decl)
         o.append('inline const auto& get() { return p; }')
     o.append('constexpr bool is_ctx = %s;' % ('true' if is_ctx else 'false'))
+    o.append('inline void select() { vf::cur_lexspec = %s; }' % ('&spec' if ls is not None else 'nullptr'))
     o.append('}')
     return '\n'.join(o)
 
@@ -100,7 +108,7 @@ def emit_tu(grammars, runtime_ctor=(), limits=None):
     o.append('static void dispatch(int gi, long idx, int mode, const std::string& in) {')
     o.append('  switch (gi) {')
     for gi in range(len(grammars)):
-        o.append('  case %d: if (idx < 0) vf::dump(g%d::get(), %d); else if constexpr (g%d::is_ctx) vf::run_ctx(g%d::get(), %d, idx, mode, in); else {\n#ifdef VF_CTX_ANY\n    if (mode >= 20) vf::run_ctx(g%d::get(), %d, idx, mode, in); else\n#endif\n    vf::run_plain(g%d::get(), %d, idx, mode, in); } break;' % ((gi,) * 10))
+        o.append('  case %d: g%d::select(); if (idx < 0) vf::dump(g%d::get(), %d); else if constexpr (g%d::is_ctx) vf::run_ctx(g%d::get(), %d, idx, mode, in); else {\n#ifdef VF_CTX_ANY\n    if (mode >= 20) vf::run_ctx(g%d::get(), %d, idx, mode, in); else\n#endif\n    vf::run_plain(g%d::get(), %d, idx, mode, in); } break;' % ((gi,) * 11))
     o.append('  }\n}')
     o.append('int main(int argc, char** argv) { return vf::main_loop(argc, argv, dispatch); }')
     return '\n'.join(o) + '\n'
